@@ -565,10 +565,10 @@ import os as _os
 # Patches of the benign corpus that some check still reports (benign/KNOWN-LIMITS.md): they are not part of the self-validation.
 # r1/r2/r4 = refactorings and code motion, r3 = maintenance commits (all silent), r5 = feature / fix commits that change behaviour but
 # keep every property, r6 = the same aimed at the core algorithms (where a shape-based prover has least to hold on to)
-_SKIP = {"r2-annotate-4", "r2-find-1", "r2-helpers-3", "r2-resolve-2", "r2-tokenizers-4"}
-_SKIP |= {"r4-annotate-2", "r4-annotate-3", "r4-annotate-4", "r4-find-2", "r4-find-4", "r4-helpers-3", "r4-resolve-4", "r4-tokenizers-2", "r4-tokenizers-3"}
+_SKIP = {"r2-helpers-3", "r2-resolve-2", "r2-tokenizers-4"}
+_SKIP |= {"r4-annotate-2", "r4-find-4", "r4-helpers-3", "r4-resolve-4", "r4-tokenizers-2", "r4-tokenizers-3"}
 _SKIP |= {"r5-annotate-3", "r5-tokenizers-1", "r5-tokenizers-2", "r5-tokenizers-3"}
-_SKIP |= {"r6-annotate-1", "r6-annotate-2", "r6-annotate-3", "r6-clean-1", "r6-clean-3", "r6-find-1", "r6-find-3", "r6-helpers-1", "r6-helpers-2", "r6-helpers-3", "r6-models-1", "r6-models-2", "r6-resolve-1", "r6-resolve-3", "r6-tokenizers-2", "r6-tokenizers-3", "r6-utils-1", "r6-utils-3"}
+_SKIP |= {"r6-annotate-2", "r6-annotate-3", "r6-clean-1", "r6-clean-3", "r6-find-1", "r6-find-3", "r6-helpers-1", "r6-helpers-3", "r6-models-1", "r6-resolve-1", "r6-resolve-3", "r6-tokenizers-2", "r6-tokenizers-3", "r6-utils-1", "r6-utils-3"}
 for _f in sorted(_glob.glob(_os.path.join(_os.path.dirname(_os.path.dirname(__file__)), "benign", "*.diff"))):
     _n = _os.path.basename(_f)[:-5]
     if _n not in _SKIP:
